@@ -94,8 +94,29 @@ def showSnap (r : List TableV) : String :=
 def parseList (s : String) : List Nat :=
   if s == "-" then [] else (s.splitOn ",").filterMap String.toNat?
 
+/-- `storm n`: `n` writers on ONE freshly registered table, all committing, released together.
+    Whatever the schedule, the committed counter ends at `n` (`C05_conc_no_lost_update`); the
+    model runs them round-robin to completion. -/
+def storm (n : Nat) : String :=
+  let st0 := (List.range n).foldl (fun st _ => spawnWriter P st [0] true [] []) (initState 1)
+  let rec go (fuel : Nat) (st : State) : State :=
+    match fuel with
+    | 0 => st
+    | fuel + 1 =>
+      match (List.range st.threads.length).find? (fun i =>
+          match st.threads[i]? with | some th => !th.done && th.enabled st | none => false) with
+      | some i => go fuel (Conc.step st i).1
+      | none => st
+  let st := go (n * 64) st0
+  let unfinished := (st.threads.filter (!·.done)).length
+  s!"cnt={(getT st.root 0).cnt} unfinished={unfinished}"
+
 def step (s : S) (ws : List String) : S × String :=
   match ws with
+  | ["storm", n, _] =>
+    match n.toNat? with
+    | some n => (s, storm n)
+    | none => (s, "bad-op")
   | ["init", n] =>
     match n.toNat? with
     | some n => ({ st := initState n }, "ok")  -- fresh Serial state too
@@ -136,5 +157,29 @@ def step (s : S) (ws : List String) : S × String :=
       match s.st.threads[i]? with | some th => th.enabled s.st | none => false
     (s, if en.isEmpty then "." else " ".intercalate (en.map toString))
   | _ => (s, "bad-op")
+
+/-- `lockstep`: release the enabled threads round-robin, one scheduler step each, until every
+    thread has finished or none is enabled -/
+def lockstep (fuel : Nat) (s : S) (idx : Nat) (msgs : String) : S × String :=
+  match fuel with
+  | 0 => (s, "out-of-fuel" ++ msgs)
+  | fuel + 1 =>
+    let n := s.st.threads.length
+    let en := (List.range n).filter fun i =>
+      match s.st.threads[i]? with | some th => !th.done && th.enabled s.st | none => false
+    match (en.find? (· ≥ idx)).orElse (fun _ => en.head?) with
+    | none =>
+      let alive := (s.st.threads.filter (!·.done)).length
+      (s, (if alive == 0 then "finished" else "deadlock") ++ msgs)
+    | some k =>
+      let (s', out) := step s ["step", toString k]
+      -- keep a broken Serial replay visible
+      let msgs := if (out.splitOn " !serial:").length > 1 then msgs ++ " !serial:" ++ ((out.splitOn " !serial:").getD 1 "") else msgs
+      lockstep fuel s' (k + 1) msgs
+
+def stepAll (s : S) (ws : List String) : S × String :=
+  match ws with
+  | ["lockstep"] => lockstep 4000 s 0 ""
+  | _ => step s ws
 
 end Drv.Sched
